@@ -308,7 +308,7 @@ func (nd *NodeDiff) Sort() {
 }
 
 func (nd *NodeDiff) isLessThan(nd2 *NodeDiff) bool {
-	left, right := nd.LeftNode(), nd2.LeftNode()
+	left, right := nd.sortNode(), nd2.sortNode()
 
 	if left.Tag().sortValue != right.Tag().sortValue {
 		return left.Tag().sortValue < right.Tag().sortValue
@@ -324,6 +324,31 @@ func (nd *NodeDiff) isLessThan(nd2 *NodeDiff) bool {
 	rightValue := right.Value()
 
 	return leftValue < rightValue
+}
+
+// sortNode returns the node that decides the position of this entry. It is the
+// same flattened node that LeftNode() would return, but the children of the
+// diff are attached to a copy because sorting must not modify the nodes that
+// were compared.
+func (nd *NodeDiff) sortNode() Node {
+	n := nd.Left
+
+	if IsNil(n) {
+		n = nd.Right
+	}
+
+	// Only nodes that derive their position from their children (the dates of
+	// an event or a residence) need the children of the diff.
+	if _, ok := n.(Yearer); !ok || len(nd.Children) == 0 {
+		return n
+	}
+
+	children := append(Nodes{}, n.Nodes()...)
+	for _, child := range nd.Children {
+		children = append(children, child.sortNode())
+	}
+
+	return NewNode(n.Tag(), n.Value(), n.Pointer(), children...)
 }
 
 // LeftNode returns the flattening Node value that favors the left side.
